@@ -204,6 +204,13 @@ def run_shard(task):
                     case, key, detail = _greedy_min(sub, case, key, detail)
                 res["violations"].append({"key": key, "detail": detail, "case": case})
                 exclude.add(key)
+            except hypothesis.errors.Flaky:
+                if not (sub.flaky_is_violation and state["last_fail"]):
+                    raise
+                case, key, detail = state["last_fail"]
+                res["violations"].append({"key": key, "detail": detail + " [not reproduced on re-execution]",
+                                          "case": case})
+                exclude.add(key)
         res["fps"] = sorted(fps)
     except core.HarnessError as e:
         res["error"] = f"HarnessError: {e}"
